@@ -146,6 +146,8 @@ fn v1_cfg(name: &str, version: &'static str, thorough: bool) -> Cfg {
         counted: vec![(T1, 2)],
         // a send still in flight at migration time: escrowed, but not yet counted by the old logic
         inflight: vec![(A, T1, 1)],
+        counted_b: vec![],
+        may_refuse: false,
     });
     c.first_migrate = vec![None, Some(2)];
     c.funds = vec![(A, T1, 1), (B, T1, 1)];
@@ -184,6 +186,8 @@ fn v2_cfg(name: &str, thorough: bool) -> Cfg {
         v1: false,
         counted: vec![(N0, 1), (T1, 1)],
         inflight: vec![(A, N0, 1), (A, T1, 1)],
+        counted_b: vec![],
+        may_refuse: false,
     });
     c.first_migrate = vec![None, Some(2)];
     c.funds = vec![(A, N0, 1), (A, T1, 1)];
@@ -201,6 +205,36 @@ fn v2_cfg(name: &str, thorough: bool) -> Cfg {
         c.fault_bound = 2;
         c.migrate_limits = vec![None, Some(3)];
     }
+    c
+}
+
+/// storage of version 0.13.0 with TWO channels that both carry the same denominations. The real
+/// migration refuses it ("multiple channels open"), which is fine; if a migration accepts it, the
+/// books it leaves behind must still be covered channel by channel.
+fn v2_two_channels_cfg(name: &str) -> Cfg {
+    let mut c = Cfg::base(name);
+    c.channels = 2;
+    c.tokens = 1;
+    c.allow_init = vec![(0, Some(1))];
+    c.old = Some(Old {
+        version: "0.13.0",
+        v1: false,
+        counted: vec![(N0, 2), (T1, 1)],
+        inflight: vec![],
+        counted_b: vec![(N0, 1), (T1, 1)],
+        may_refuse: true,
+    });
+    c.first_migrate = vec![None, Some(2)];
+    c.funds = vec![(A, N0, 1)];
+    c.senders = vec![A];
+    c.send_toks = vec![N0];
+    c.send_amounts = vec![1];
+    c.proper = vec![Base::Tok(N0), Base::Tok(T1)];
+    c.bad = vec![Den::OtherChannel(Base::Tok(N0))];
+    c.recv_amounts = vec![1, 2, 3];
+    c.fault_bound = 1;
+    c.fault_kinds = vec![Fault::Reject, Fault::Gas];
+    c.raws = vec![0];
     c
 }
 
@@ -229,6 +263,7 @@ fn configs(prop: &str, thorough: bool) -> Vec<(Cfg, Option<usize>)> {
                 v.push(v1_cfg("C11/upgrade/v1-0.11.1", "0.11.1", true));
                 v.push(v2_cfg("C11/upgrade/v2-0.13.0-inflight", true));
             }
+            v.push(v2_two_channels_cfg("C11/upgrade/v2-0.13.0-two-channels-same-denoms"));
             for mut c in v {
                 c.props = p.clone();
                 out.push((c, None));
@@ -269,6 +304,7 @@ fn configs(prop: &str, thorough: bool) -> Vec<(Cfg, Option<usize>)> {
             v.push(v1_cfg("C12/upgrade/v1-0.11.1", "0.11.1", thorough));
             v.push(v1_cfg("C12/upgrade/v1-0.12.0-alpha1", "0.12.0-alpha1", thorough));
             v.push(v2_cfg("C12/upgrade/v2-0.13.0-inflight", thorough));
+            v.push(v2_two_channels_cfg("C12/upgrade/v2-0.13.0-two-channels-same-denoms"));
             {
                 // same-version migrate at every reachable state
                 let mut c = cw20_cfg("C12/same-version-migrate-everywhere", Some(1), QUICK);
